@@ -47,6 +47,12 @@ def cycle(s, rng, i):
     s.put(U, "u%d" % i)
     s.write(3, U)
     s.chmod(U, False)    # unreadable source
+    # an editor's probe file in a project of which nothing has ever been stored (vim's 4913): written, deleted before
+    # its turn - the project's turn then finds no tree of links to walk
+    G = WATCH + "/pp/ghost/4913"
+    s.put(G, "probe")
+    s.write(3, G)
+    s.rm(G)
     s.timeout()
     s.add("rmdir %s" % wc.hexs(D))
     s.chmod(U, True)
@@ -223,7 +229,7 @@ def main(rep):
     rep.cov["input_distribution"] = {"histories": n if exe_impl else 0, "soak_and_burst_runs": nsoak, "event_loop_scripts": total - nsoak - (n if exe_impl else 0)}
     rep.cov["rule"] = ("random mixed histories with the number of descriptors opened by klunok and not closed (wrapped open/close) checked after every operation: "
                        "2 with a handler loaded, 0 after release; soak: one round of a mixed history (editor exec with ELF interpreter, four damaged editor-named ELF images, plain files, sources replaced by a directory / made unreadable, a history path, "
-                       "a project file, a collision, an emptied position file of the history path, a deleted source, a deleted source whose clean-up fails with EACCES, four passes) repeated 1, 10 and 100 times must end with identical counts of live heap "
+                       "a project file, a probe file written and deleted in a project of which nothing was ever stored, a collision, an emptied position file of the history path, a deleted source, a deleted source whose clean-up fails with EACCES, four passes) repeated 1, 10 and 100 times must end with identical counts of live heap "
                        "blocks (wrapped malloc/calloc/realloc/strdup/free) and descriptors, before and after releasing the handler; single bursts of 20 / 140 / 300 (thorough: up to 1100) distinct files due in one pass, and 1 / 10 / 100 rounds of passes that have to wait (a due head superseded by a later save that is not due), must end with identical counts too; the real main() loop over 5-60 scripted events of every "
                        "kind (the daemon's own included): the descriptor of each event is closed exactly once")
     rep.cov["samples"] = [soak_script(1, rep.seed).split("\n")[-25:]]
